@@ -141,7 +141,9 @@ func runJobs(bin map[bool]string, jobs []job, timeout time.Duration, deadline ti
 	return outs
 }
 
-var panicRe = regexp.MustCompile(`(panic: [^\n]*|fatal error: [^\n]*)`)
+// the "panic:" line itself may have fallen into the dropped middle of a very long output (the
+// goroutine dump of a big run is megabytes): the signal line that follows it is as good
+var panicRe = regexp.MustCompile(`(panic: [^\n]*|fatal error: [^\n]*|\[signal SIG[A-Z]+: [^\n]*)`)
 var frameRe = regexp.MustCompile(`(?m)^(github\.com/yandex/mysync/internal/[^\s(]+)\(`)
 var raceRe = regexp.MustCompile(`WARNING: DATA RACE`)
 
@@ -192,7 +194,7 @@ func classifyDeath(o *outcome) (*violation, string) {
 		fr = strings.TrimPrefix(fr, "github.com/yandex/mysync/internal/")
 		kind := "panic"
 		switch {
-		case strings.Contains(m, "nil pointer"):
+		case strings.Contains(m, "nil pointer"), strings.Contains(m, "SIGSEGV"):
 			kind = "nil-deref"
 		case strings.Contains(m, "index out of range"):
 			kind = "index"
@@ -202,6 +204,9 @@ func classifyDeath(o *outcome) (*violation, string) {
 			kind = "change-master-to-self"
 		}
 		return &violation{Property: "C20", Clause: "panic", Signature: "C20/panic/" + fr + ":" + kind, Detail: m}, ""
+	}
+	if o.timedOut {
+		return nil, "run process exceeded the per-run wall-clock limit and was killed"
 	}
 	return nil, fmt.Sprintf("run process exited %d without a result", o.exitCode)
 }
@@ -345,8 +350,14 @@ func cmdCheck(id, tier string) int {
 		if v, err := strconv.Atoi(os.Getenv("VERIF_RUNS")); err == nil && v > 0 {
 			n = v
 		}
+		// race-build runs cost about ten times a plain run: they keep the quick tier's run length
+		// in both tiers (the thorough tier has more of them)
+		jt := tier
+		if f.race {
+			jt = "quick"
+		}
 		for i := 0; i < n; i++ {
-			jobs = append(jobs, job{fam: f, index: i, in: simInput{Mode: "gen", Family: f.family, Seed: seed, Index: i, Tier: tier}})
+			jobs = append(jobs, job{fam: f, index: i, in: simInput{Mode: "gen", Family: f.family, Seed: seed, Index: i, Tier: jt}})
 		}
 	}
 	outs := runJobs(bins, jobs, 10*time.Minute, deadline)
